@@ -615,8 +615,9 @@ def ob_txn(ob, tier, seed):
         rp = run_native_bin("native_txn")
         if rp["status"] == "reproduced":
             os.makedirs(REPLAYS, exist_ok=True)
-            path = os.path.join(REPLAYS, "C15_%s.json" % ob["id"].replace(".", "_"))
-            json.dump({"property": "C15", "obligation": ob["id"], "kind": "txn", "failed": res.get("failures"), "native": rp.get("lines")}, open(path, "w"), indent=1)
+            pid = ob["id"].split(".")[0]
+            path = os.path.join(REPLAYS, "%s_%s.json" % (pid, ob["id"].replace(".", "_")))
+            json.dump({"property": pid, "obligation": ob["id"], "kind": "txn", "failed": res.get("failures"), "native": rp.get("lines")}, open(path, "w"), indent=1)
             rp["path"] = path
         res["replay"] = rp
     return res
